@@ -583,6 +583,8 @@ class Abstractor:
         s._fp = {}
         s._samples = {}
         s._atomfp = {}
+        s._dom = ({}, {}, set())
+        s._dom_key = -1
 
     # ---- numeric fingerprints: the value of an abstracted term at K fixed pseudo-random sample points under the TRUE
     # semantics of the functions (complex arithmetic, so no domain errors).  Different fingerprints => the two terms are
@@ -590,14 +592,62 @@ class Abstractor:
     # only lose completeness on measure-zero hypotheses, never soundness).
     K = 3
 
+    def _domains(s):
+        """box / integrality information read off the installed hypotheses (x >= a, x <= b, x == to_real(to_int(x))): sample
+        points are drawn inside it, so that identities which hold only on the stated domain survive the fingerprint filter"""
+        key = len(s.hyps)
+        if s._dom_key == key:
+            return s._dom
+        lo, hi, ints = {}, {}, set()
+
+        def num(t):
+            t = z3.simplify(t)
+            return float(t.as_fraction()) if z3.is_rational_value(t) else None
+
+        def sym(t):
+            return t.decl().name() if z3.is_const(t) and t.decl().kind() == z3.Z3_OP_UNINTERPRETED and z3.is_real(t) else None
+        for h in s.hyps:
+            if not z3.is_app(h) or h.num_args() != 2:
+                continue
+            k = h.decl().kind()
+            a, b = h.arg(0), h.arg(1)
+            if k == z3.Z3_OP_EQ and sym(a) and z3.is_app(b) and b.decl().kind() == z3.Z3_OP_TO_REAL and b.arg(0).decl().kind() == z3.Z3_OP_TO_INT and b.arg(0).arg(0).eq(a):
+                ints.add(sym(a))
+                continue
+            for x, y, kk in ((a, b, k), (b, a, {z3.Z3_OP_LE: z3.Z3_OP_GE, z3.Z3_OP_GE: z3.Z3_OP_LE, z3.Z3_OP_LT: z3.Z3_OP_GT, z3.Z3_OP_GT: z3.Z3_OP_LT}.get(k))):
+                if sym(x) and num(y) is not None and kk is not None:
+                    if kk in (z3.Z3_OP_GE, z3.Z3_OP_GT):
+                        lo[sym(x)] = max(lo.get(sym(x), -1e300), num(y))
+                    elif kk in (z3.Z3_OP_LE, z3.Z3_OP_LT):
+                        hi[sym(x)] = min(hi.get(sym(x), 1e300), num(y))
+        s._dom = (lo, hi, ints)
+        s._dom_key = key
+        s._samples = {}
+        s._fp = {}
+        return s._dom
+
     def _sample(s, name):
+        lo, hi, ints = s._domains()
         if name not in s._samples:
             h = 0
             for c in name:
                 h = (h * 131 + ord(c)) % 1000003
             import random as _r
             rr = _r.Random(h)
-            s._samples[name] = tuple(complex(rr.uniform(0.3, 1.7), 0.0) for _ in range(s.K))
+            if name in ints:
+                # integer-valued symbols are sampled at integers inside their (small) box: floor/divmod identities hold there
+                import math as _m
+                a, b = lo.get(name, 1.0), hi.get(name, 60.0)
+                if abs(a) > 1000:
+                    a = 1.0
+                ia = int(_m.ceil(a))
+                ib = int(_m.floor(b)) if b - a < 1e6 else ia + 60
+                ib = min(ib, ia + 60)
+                vals = tuple(complex(rr.randint(ia, max(ia, ib)), 0.0) for _ in range(s.K))
+            else:
+                # real symbols: a fixed benign range (identities do not depend on it; transcendental functions stay finite)
+                vals = tuple(complex(rr.uniform(0.3, 1.7), 0.0) for _ in range(s.K))
+            s._samples[name] = vals
         return s._samples[name]
 
     def fp(s, t):
@@ -674,12 +724,27 @@ class Abstractor:
         F = dict(sin=cmath.sin, cos=cmath.cos, tan=cmath.tan, atan=cmath.atan, asin=cmath.asin, acos=cmath.acos, sqrt=cmath.sqrt,
                  sinh=cmath.sinh, cosh=cmath.cosh, log=cmath.log, exp=cmath.exp, atanh=cmath.atanh, asinh=cmath.asinh)
         if nm in F and len(ch) == 1:
-            return tuple(F[nm](x) for x in ch[0])
+            try:
+                return tuple(F[nm](x) for x in ch[0])
+            except (OverflowError, ValueError, ZeroDivisionError):
+                return None
         if nm == 'atan2':
-            return tuple(-1j * cmath.log((x + 1j * y) / cmath.sqrt(x * x + y * y)) for y, x in zip(ch[0], ch[1]))
+            try:
+                return tuple(-1j * cmath.log((x + 1j * y) / cmath.sqrt(x * x + y * y)) for y, x in zip(ch[0], ch[1]))
+            except (OverflowError, ValueError, ZeroDivisionError):
+                return None
         # summaries, loop UFs, round_n: a fixed generic analytic function of the arguments (congruence only)
         h = sum(ord(c) * (i + 1) for i, c in enumerate(nm)) % 89 + 2
-        return tuple(sum(cmath.sin((h + 5 * a) * c[i] / 7 + a) for a, c in enumerate(ch)) + h / 10 for i in range(s.K))
+
+        def g(v, a):
+            w = (h + 5 * a) * v / 7 + a
+            if abs(w.imag) < 1e-300:
+                return complex(cmath.sin(w.real % 6.283185307179586) + 0.37 * cmath.cos((w.real * 0.61803) % 6.283185307179586).real, 0.0)
+            return cmath.sin(w)
+        try:
+            return tuple(sum(g(c[i], a) for a, c in enumerate(ch)) + h / 10 for i in range(s.K))
+        except (OverflowError, ValueError, ZeroDivisionError, TypeError):
+            return None
 
     @staticmethod
     def _fp_close(a, b, sign=1):
@@ -738,7 +803,10 @@ class Abstractor:
     def _eq_hyps_touch(s, u, v):
         """is there an installed (small) hypothesis that is an EQUATION mentioning a symbol of u or v?  Then u == v may hold
         under it although the two terms differ as functions, and the fingerprint filter must not be used."""
-        eqs = [h for h in s.small_hyps() if z3.is_eq(h) and not z3.is_bool(h.arg(0))]
+        def is_integrality(h):
+            b = h.arg(1)
+            return z3.is_app(b) and b.decl().kind() == z3.Z3_OP_TO_REAL and b.arg(0).decl().kind() == z3.Z3_OP_TO_INT and b.arg(0).arg(0).eq(h.arg(0))
+        eqs = [h for h in s.small_hyps() if z3.is_eq(h) and not z3.is_bool(h.arg(0)) and not is_integrality(h)]
         if not eqs:
             return False
         names = set(free_symbols([u, v]))
